@@ -14,13 +14,17 @@ Print Assumptions C12_mask_facts.
 Theorem C12_encode_seq : forall l, l <> [] -> NoDup l -> (forall d, In d l -> (d < n_days)%nat) ->
   weekdays_to_hexadecimal (ASeq l) = Ok (hexbyte (sum_bits l)).
 Proof. exact weekdays_encode_seq. Qed.
+Print Assumptions C12_encode_seq.
 Theorem C12_encode_set : forall l, l <> [] -> NoDup l -> (forall d, In d l -> (d < n_days)%nat) ->
   weekdays_to_hexadecimal (ASet l) = Ok (hexbyte (sum_bits l)).
 Proof. exact weekdays_encode_set. Qed.
+Print Assumptions C12_encode_set.
 Theorem C12_reject_duplicates : forall l, l <> [] -> ~ NoDup l -> weekdays_to_hexadecimal (ASeq l) = Exc ValueError.
 Proof. exact weekdays_reject_dup. Qed.
+Print Assumptions C12_reject_duplicates.
 Theorem C12_reject_empty : weekdays_to_hexadecimal (ASeq []) = Exc ValueError /\ weekdays_to_hexadecimal (ASet []) = Exc ValueError.
 Proof. exact weekdays_reject_empty. Qed.
+Print Assumptions C12_reject_empty.
 Theorem C12_reject_mask : forall m, m < 2 \/ 254 < m -> bit_summary_to_days m = Exc ValueError.
 Proof. exact mask_reject. Qed.
-Print Assumptions C12_encode_seq.
+Print Assumptions C12_reject_mask.
